@@ -84,6 +84,18 @@ func (vc *VC) verifyFunction() {
 	fr := &Frame{fn: fn, spec: vc.spec, env: map[ssa.Value]Val{}, params: map[string]Val{}, callOrd: map[string]int{}, top: true}
 	vc.comp("$next", "Int")
 	vc.predeclareSliceUFs(fnPkg(fn))
+	vc.localTypes = map[string]types.Type{}
+	for _, b := range fn.Blocks {
+		for _, in := range b.Instrs {
+			if d, ok := in.(*ssa.DebugRef); ok {
+				if id, ok := d.Expr.(*ast.Ident); ok {
+					if v, ok := d.Object().(*types.Var); ok && !v.IsField() {
+						vc.localTypes[id.Name] = v.Type()
+					}
+				}
+			}
+		}
+	}
 	for _, p := range fn.Params {
 		v := vc.freshVal(st, p.Type(), "p."+p.Name())
 		if v.Sl != nil {
